@@ -234,7 +234,7 @@ CHECKS = {
               # the same real-TCP workload under AddressSanitizer and ThreadSanitizer (nightly, -Zbuild-std for TSan)
               dict(check="c02", flavor="asan", tier="thorough", scale=0.1, timeout_s=600),
               dict(check="c02", flavor="tsan", tier="thorough", scale=0.1, timeout_s=600)],
-        required=["updates_with_event_detection", "converged", "records_match_history", "events_delivered", "events_overflow_discarded", "commands_executed", "connection_cuts", "converged_after_cuts", "converged_after_overflow", "commands_ok_executed_once", "connection_refusal_periods", "scenarios_with_relative_time_events", "multi_header_static_reads_ok"],
+        required=["scenarios_with_16_bit_analog_variations", "analog_values_outside_16_bits_written", "updates_with_event_detection", "converged", "records_match_history", "events_delivered", "events_overflow_discarded", "commands_executed", "connection_cuts", "converged_after_cuts", "converged_after_overflow", "commands_ok_executed_once", "connection_refusal_periods", "scenarios_with_relative_time_events", "multi_header_static_reads_ok"],
         thorough_scale=10.0,
         abnormal_exit_is_violation=True,
         assumptions=HARNESS_TRUST + ["real-time run: the 40 s convergence budget is three orders of magnitude above the observed convergence time on loopback; a firing is reported as a violation"],
